@@ -250,3 +250,101 @@ package constraint
 //@   props C08
 //@   implements Constraint.IsJsonTypeCompatible
 
+// ---- scalar rules (property C02) ----
+
+//@ func (Type).String()
+//@   trusted "generated stringer: total on the 26 declared constants (index table not re-verified)"
+//@   requires 0 <= t && t <= 25
+//@   pure
+
+//@ func parseUint(v, c)
+//@   props C02 C07
+//@   requires 0 <= c && c <= 25
+//@   maypanic
+//@   ensures panics <==> (len(v) == 0 || (exists k :: 0 <= k && k < len(v) && !isDigit(v[k])))
+//@   ensures panics ==> typeis(pv, errors.Errorf) && unbox(pv, errors.Errorf).code == errors.ErrInvalidValueOfConstraint && errWF(pv)
+
+//@ func (MinLength).Validate(value)
+//@   props C02
+//@   requires len(value) <= 1000000000000
+//@   maypanic
+//@   ensures plainQuoted(value) ==> (panics <==> len(value) - 2 < c.value)
+//@   ensures !(len(value) >= 2 && value[0] == '"' && value[len(value)-1] == '"') ==> (panics <==> len(value) < c.value)
+//@   ensures panics ==> typeis(pv, errors.Errorf) && unbox(pv, errors.Errorf).code == errors.ErrConstraintStringLengthValidation && errWF(pv)
+
+//@ func (MaxLength).Validate(value)
+//@   props C02
+//@   requires len(value) <= 1000000000000
+//@   maypanic
+//@   ensures plainQuoted(value) ==> (panics <==> len(value) - 2 > c.value)
+//@   ensures !(len(value) >= 2 && value[0] == '"' && value[len(value)-1] == '"') ==> (panics <==> len(value) > c.value)
+//@   ensures panics ==> typeis(pv, errors.Errorf) && unbox(pv, errors.Errorf).code == errors.ErrConstraintStringLengthValidation && errWF(pv)
+
+//@ func (Const).Validate(v)
+//@   props C02
+//@   maypanic
+//@   ensures panics <==> (c.apply && !sameBytes(v, c.nodeValue))
+//@   ensures panics ==> typeis(pv, errors.Errorf) && unbox(pv, errors.Errorf).code == errors.ErrInvalidConst && errWF(pv)
+
+//@ func NewConst(value, nodeValue)
+//@   props C02
+//@   maypanic
+//@   ensures panics <==> !(beq(value, "true") || beq(value, "false"))
+//@   ensures normal ==> fresh(result) && result.apply == beq(value, "true") && result.nodeValue == nodeValue
+
+//@ func NewNullable(ruleValue)
+//@   props C02
+//@   maypanic
+//@   ensures panics <==> !(beq(ruleValue, "true") || beq(ruleValue, "false"))
+//@   ensures normal ==> fresh(result) && result.value == beq(ruleValue, "true")
+
+//@ func NewOptional(ruleValue)
+//@   props C02 C01
+//@   maypanic
+//@   ensures panics <==> !(beq(ruleValue, "true") || beq(ruleValue, "false"))
+//@   ensures normal ==> fresh(result) && result.value == beq(ruleValue, "true")
+
+// ---- numeric rules (C02, C10): strictness comes from the exclusive flag ----
+
+//@ func (Min).Validate(value)
+//@   props C02 C10
+//@   requires c.min != nil && normNumber(*c.min)
+//@   maypanic
+//@   ensures panics <==> (!parseOK(value) || (c.exclusive ? parsedCmp(*c.min, value) >= 0 : parsedCmp(*c.min, value) == 1))
+//@   ensures panics && parseOK(value) ==> typeis(pv, errors.Errorf) && unbox(pv, errors.Errorf).code == errors.ErrConstraintValidation && errWF(pv)
+
+//@ func (Max).Validate(value)
+//@   props C02 C10
+//@   requires c.max != nil && normNumber(*c.max)
+//@   maypanic
+//@   ensures panics <==> (!parseOK(value) || (c.exclusive ? parsedCmp(*c.max, value) <= 0 : parsedCmp(*c.max, value) == 0 - 1))
+//@   ensures panics && parseOK(value) ==> typeis(pv, errors.Errorf) && unbox(pv, errors.Errorf).code == errors.ErrConstraintValidation && errWF(pv)
+
+// precision is a bound on the number of fraction digits of the normal form
+//@ func (Precision).Validate(value)
+//@   props C02 C10
+//@   maypanic
+//@   ensures panics <==> (!parseOK(value) || c.value < precLen(value))
+//@   ensures panics && parseOK(value) ==> typeis(pv, errors.Errorf) && unbox(pv, errors.Errorf).code == errors.ErrConstraintValidation && errWF(pv)
+
+//@ func (*Min).SetExclusive(exclusive)
+//@   props C02 C08
+//@   requires c != nil
+//@   nopanic
+//@   modifies c.exclusive
+//@   ensures c.exclusive == exclusive
+//@ func (*Max).SetExclusive(exclusive)
+//@   props C02 C08
+//@   requires c != nil
+//@   nopanic
+//@   modifies c.exclusive
+//@   ensures c.exclusive == exclusive
+
+//@ func (MinItems).ValidateTheArray(numberOfChildren)
+//@   props C02 C04
+//@   maypanic
+//@   ensures panics <==> numberOfChildren < c.value
+//@ func (MaxItems).ValidateTheArray(numberOfChildren)
+//@   props C02 C04
+//@   maypanic
+//@   ensures panics <==> numberOfChildren > c.value
